@@ -22,7 +22,18 @@ RULE = ('selectors are generated as sequences of lexical items (spell.g_selector
         'forms (literal, backslash-char, hex with terminator, 6-digit hex, upper-case hex, escaped newline inside strings), '
         'values as "..." / \'...\' / bare identifier, keywords in random case. Checked: (1) the property on PY: all spellings '
         'compile to == selector structures and select the same elements of a probe document; (2) PY ≡ Lean parser model on '
-        'every spelling. Non-trivial = the canonical spelling compiles and the respelling differs textually from it.')
+        'every spelling. Non-trivial = the canonical spelling compiles and the respelling differs textually from it. '
+        '(3) Custom pseudo-class names are identifiers and pseudo-class names too: tables custom={name: definition} (1-3 names from '
+        'spell.CUSTOM_NAMES: ASCII letters of both cases, hex-digit letters, digits, non-ASCII, characters that need an escape, the '
+        'bare "--"; definitions over the whole grammar or document-shaped, later definitions referring to earlier names) with '
+        'patterns that refer to the names (alone, after a type selector, inside :not/:is/:where/:has, in front of any '
+        'pseudo-class of a generated selector). Keys of the table and references are spelled by spell.render_name: leading "--" '
+        'literal, every other code point literal / backslash-char / hex escape in all forms, every ASCII letter in random case '
+        'BEFORE it is escaped (so hex escapes of capitals and of small letters both occur on either side). The canonical table + '
+        'pattern and k respellings (only the keys, only the references and definitions, or everything) must compile to == '
+        'structures and select the same elements; plus, for every name of the pool, a matrix of m key spellings x m reference '
+        'spellings (a reference in one spelling must find the definition registered under another spelling). All of them also go '
+        'through PY = Lean parser model.')
 
 
 def probe_docs(rng):
@@ -31,6 +42,111 @@ def probe_docs(rng):
         kind, top = gen.gen_state_doc(rng) if rng.random() < 0.5 else gen.gen_doc(rng)
         docs.append(gen.build_doc(kind, top))
     return docs
+
+
+def compile_fresh(pattern, custom=None):
+    """Parse without the compile cache; the custom table goes through process_custom like in sv.compile."""
+    table = cp.process_custom(sv.ct.CustomSelectors(custom)) if custom is not None else None
+    return cp.CSSParser(pattern, custom=table).process_selectors()
+
+
+def same_selection(rng, docs, base, ck, alt, ak):
+    d = rng.choice(docs)
+    a = [id(e) for e in sv.compile(base, custom=ck).select(d)]
+    b = [id(e) for e in sv.compile(alt, custom=ak).select(d)]
+    return a == b, len(a)
+
+
+def custom_name_spellings(chk, rng, docs, cases, py_bad, quick):
+    """Sub-check (3) of RULE: spellings of custom pseudo-class names, as keys of `custom=` and as references."""
+    stats = {}
+    cov = {'tables': 0, 'canonical_compiled': 0, 'respellings': 0, 'respellings_textually_different': 0,
+           'matrix_names': 0, 'matrix_pairs': 0, 'selections_compared': 0, 'selections_nonempty': 0}
+
+    def compare(base, ck, alt, ak, c0, what, p_select):
+        cases.append((alt, ak, 0))
+        cov['respellings'] += 1
+        if alt != base or ak != ck:
+            cov['respellings_textually_different'] += 1
+        rec = {'canonical': base, 'custom_canonical': ck, 'respelled': alt, 'custom_respelled': ak, 'respelled_part': what}
+        try:
+            c1 = compile_fresh(alt, ak)
+        except Exception as e:
+            py_bad.append({**rec, 'failure': f'{type(e).__name__}: {str(e).splitlines()[0]}'})
+            return
+        if c1 != c0:
+            py_bad.append({**rec, 'failure': 'compiled structures differ'})
+            return
+        if rng.random() < p_select:
+            same, n = same_selection(rng, docs, base, ck, alt, ak)
+            cov['selections_compared'] += 1
+            cov['selections_nonempty'] += 1 if n else 0
+            if not same:
+                py_bad.append({**rec, 'failure': 'select results differ'})
+
+    # (a) every name of the pool: m spellings of the key x m spellings of the reference
+    m = 4 if quick else 12
+    for nm in spell.CUSTOM_NAMES:
+        d = spell.render(spell.g_doc_def(rng), rng, 0)
+        ck, base = {spell.render_name(rng, nm, 0): d}, spell.render_name(rng, nm, 0)
+        cases.append((base, ck, 0))
+        try:
+            c0 = compile_fresh(base, ck)
+        except Exception:
+            continue
+        cov['matrix_names'] += 1
+        keys = [spell.render_name(rng, nm, 1, stats) for _ in range(m)]
+        refs = [spell.render_name(rng, nm, 1, stats) for _ in range(m)]
+        for kx in keys:
+            for rx in refs:
+                cov['matrix_pairs'] += 1
+                compare(base, ck, rx, {kx: d}, c0, 'key and reference', 0.2)
+    # (b) random tables and patterns
+    n_tab = 260 if quick else 12000
+    k = 4
+    for _ in range(n_tab):
+        table, pat = spell.g_custom_case(rng)
+        ck = {spell.render_name(rng, nm, 0): spell.render(d, rng, 0) for nm, d in table}
+        base = spell.render(pat, rng, 0)
+        if len(base) > 200 or any(len(v) > 200 for v in ck.values()):
+            continue
+        cov['tables'] += 1
+        cases.append((base, ck, 0))
+        try:
+            c0 = compile_fresh(base, ck)
+        except Exception:
+            continue
+        cov['canonical_compiled'] += 1
+        for _ in range(k):
+            what = rng.choice(['keys', 'references and definitions', 'everything'])
+            if what == 'keys':
+                ak = {spell.render_name(rng, nm, 1, stats): spell.render(d, rng, 0) for nm, d in table}
+                alt = base
+            elif what == 'references and definitions':
+                ak = {spell.render_name(rng, nm, 0): spell.render(d, rng, 1, stats) for nm, d in table}
+                alt = spell.render(pat, rng, 1, stats)
+            else:
+                ak = {spell.render_name(rng, nm, 1, stats): spell.render(d, rng, 1, stats) for nm, d in table}
+                alt = spell.render(pat, rng, 1, stats)
+            compare(base, ck, alt, ak, c0, what, 0.5)
+    cov['escaped_letters_in_names'] = dict(sorted(stats.items()))
+    # (c) observation, not judged: the generator keeps the two leading dashes literal.  CSS reads ':\2d-a' as the same
+    # <dashed-ident> as ':--a'; the library recognises a custom name by the literal text ':--' (PAT_PSEUDO_CLASS_CUSTOM
+    # look-ahead, RE_CUSTOM for keys), so a spelling with an escaped leading dash is rejected on either side.
+    tried, equal, example = 0, 0, None
+    for nm in spell.CUSTOM_NAMES[:8]:
+        canon = spell.render_name(rng, nm, 0)
+        for dashes in ('\\2d -', '-\\2d ', '\\--', '-\\-'):
+            odd = ':' + dashes + canon[3:]
+            for alt, ak in ((odd, {canon: 'p'}), (canon, {odd: 'p'})):
+                tried += 1
+                try:
+                    equal += compile_fresh(alt, ak) == compile_fresh(canon, {canon: 'p'})
+                except Exception as e:
+                    example = example or {'pattern': alt, 'custom': ak, 'outcome': f'{type(e).__name__}: {str(e).splitlines()[0]}'}
+    chk.notes['custom_name_escaped_leading_dashes'] = {'spellings_tried': tried, 'compiled_equal_to_literal_dashes': equal,
+                                                       'first_rejected': example, 'judged': False}
+    chk.coverage['custom_names'] = cov
 
 
 def run(chk):
@@ -74,12 +190,13 @@ def run(chk):
                 b = [id(e) for e in sv.compile(alt).select(d)]
                 if a != b:
                     py_bad.append({'canonical': base, 'respelled': alt, 'failure': 'select results differ'})
+    custom_name_spellings(chk, rng, docs, cases, py_bad, quick)
     corr_bad = []
     if driver_ok:
         for start in range(0, len(cases), 20000):
             for c, py, lean, diff in parsecorr.run(cases[start:start + 20000]):
                 if diff:
-                    corr_bad.append({'pattern': c[0], 'difference': diff})
+                    corr_bad.append({'pattern': c[0], 'custom': c[1], 'difference': diff})
     chk.samples = [{'canonical': cases[i][0], 'respelled': cases[i + 1][0]} for i in range(0, min(len(cases) - 1, 15), 5)]
     chk.coverage.update({'token_sequences': n_sel, 'canonical_compiled': compiled_ok, 'spellings_per_sequence': k,
                          'patterns_compared_with_model': len(cases), 'spelling_violations': len(py_bad),
@@ -97,13 +214,15 @@ def run(chk):
 
 def replay(chk, path):
     data = json.load(open(path))
+    detail = None
     try:
-        a = cp.CSSParser(data['canonical']).process_selectors()
-        b = cp.CSSParser(data['respelled']).process_selectors()
+        a = compile_fresh(data['canonical'], data.get('custom_canonical'))
+        b = compile_fresh(data['respelled'], data.get('custom_respelled'))
         ok = a == b
     except Exception as e:
         ok = False
-    print(json.dumps({'equal': ok}))
+        detail = f'{type(e).__name__}: {str(e).splitlines()[0]}'
+    print(json.dumps({'equal': ok, 'exception': detail}))
     if not ok:
         print(f'VIOLATION property={PID} replay={path}')
         return 1
